@@ -203,19 +203,44 @@ def run_real(case):
     out["ctor"] = "ok"
     # float front end of get_random_bbox, evaluated on the lambdas the real run passes in (same dtype, same ops)
     orig_bbox = inner.get_random_bbox
+    import inspect
+    try:
+        bbox_sig = inspect.signature(orig_bbox)
+    except (TypeError, ValueError):
+        bbox_sig = None
 
-    def rec_bbox(h, w, lamb):
+    def rec_bbox(*a, **kw):
+        # transparent: the arguments are forwarded verbatim (positional stays positional) so that the call site and the
+        # callee meet exactly as they do without the recorder; the float front end is evaluated for the TRUE image extent
+        r = orig_bbox(*a, **kw)
+        lamb = kw.get("lamb")
+        if lamb is None and bbox_sig is not None:
+            try:
+                lamb = bbox_sig.bind(*a, **kw).arguments.get("lamb")
+            except TypeError:
+                lamb = None
+        if lamb is None and a:
+            lamb = a[-1]
         area_half = 0.5 * (1.0 - lamb).sqrt()
-        hh = (area_half * h).floor()
-        wh = (area_half * w).floor()
-        out["halves"] += [[int(a), int(b)] for a, b in zip(hh.tolist(), wh.tolist())]
-        r = orig_bbox(h=h, w=w, lamb=lamb)
+        hh = (area_half * case["h"]).floor()
+        wh = (area_half * case["w"]).floor()
+        out["halves"] += [[int(x), int(y)] for x, y in zip(hh.tolist(), wh.tolist())]
         out.setdefault("bbox", []).extend(r[0].tolist())
         return r
     inner.get_random_bbox = rec_bbox
     X, Y = make_inputs(case)
     out["X"], out["Y"] = X, Y
     samples = build_samples(case, X, Y)
+    # state carried across calls: the SAME collator object first collates `warm` other batches of the same shape but other
+    # content (ids shifted); the judged batch must not depend on them (the model is a function of batch + tape only)
+    for j in range(case.get("warm", 0)):
+        try:
+            call(build_samples(case, X + 4096.0 * (j + 1), Y[::-1] if isinstance(Y, list) else Y))
+        except Exception:  # noqa
+            break
+    del rec.tape[:]
+    del out["halves"][:]
+    out.pop("bbox", None)
     try:
         res = call(samples)
     except Exception as e:  # noqa
@@ -481,7 +506,8 @@ def gen_case(rng, big=False):
     C = rng.randint(2, 5)
     mode = rng.choice(MODES)
     case = {"kind": "kd", "B": B, "c": c, "h": h, "w": w, "C": C, "label_kind": lk, "mode": mode,
-            "cls_off": rng.randint(0, 3), "cls_stride": rng.choice([1, 1, 2]), "seed": rng.randint(0, 10 ** 6)}
+            "cls_off": rng.randint(0, 3), "cls_stride": rng.choice([1, 1, 2]), "seed": rng.randint(0, 10 ** 6),
+            "warm": rng.choice([0, 0, 1, 2])}
     if r < 0.06:
         case["kind"] = "mae"
         case["mode"] = "x class"
@@ -534,7 +560,7 @@ def structured_cases():
                         for lk in ("onehot", "binary01"):
                             seed += 1
                             out.append({"kind": "kd", "B": B, "c": 1 + 2 * (seed % 2), "h": 2 + seed % 4, "w": 2 + (seed // 3) % 4, "C": 2 + seed % 3,
-                                        "label_kind": lk, "mode": MODES[seed % len(MODES)], "cls_off": seed % 2, "cls_stride": 1, "seed": seed,
+                                        "label_kind": lk, "mode": MODES[seed % len(MODES)], "cls_off": seed % 2, "cls_stride": 1, "seed": seed, "warm": seed % 3,
                                         "ctor": {"mixup_p": mp, "cutmix_p": cp, "mixup_alpha": 0.8 if mp else None,
                                                  "cutmix_alpha": 1.0 if cp else None, "apply_mode": am, "lamb_mode": lm, "shuffle_mode": sm}})
     return out
